@@ -317,13 +317,13 @@ func (w *bitOut) put(v uint, n uint) { // n bits of v, MSB first
 }
 
 type encoder struct {
-	h                   huff
-	text                [N + F - 1]byte
-	lson, dad           [N + 1]int
-	rson                [N + 257]int
-	matchPos, matchLen  int
-	out                 bitOut
-	Matches, Literals   int
+	h                  huff
+	text               [N + F - 1]byte
+	lson, dad          [N + 1]int
+	rson               [N + 257]int
+	matchPos, matchLen int
+	out                bitOut
+	Matches, Literals  int
 }
 
 func (e *encoder) initTree() {
